@@ -341,6 +341,8 @@ def err_kind(e):
         return "value-error"
     if "Unhandled type" in str(e):
         return "unhandled-type"
+    if isinstance(e, RecursionError):
+        return "recursion-error"
     return "other:" + type(e).__name__
 
 
@@ -384,7 +386,7 @@ def inst_view(o):
             "init": [], "task": None}
 
 
-def pair_walk(a_root, b_root, a_view, b_view, is_node, links=("pre", "init", "task"), data_eq=None, where="root"):
+def pair_walk(a_root, b_root, a_view, b_view, is_node, links=("pre", "init", "task"), data_eq=None, where="root", soft=None):
     """parallel traversal of two object graphs starting from two *values* (an object or a list/dict
     structure of objects); raises Differ at the first structural difference.  Returns the bijection id(a) -> b."""
     fwd, bwd = {}, {}
@@ -442,11 +444,16 @@ def pair_walk(a_root, b_root, a_view, b_view, is_node, links=("pre", "init", "ta
                 continue
             pair(x, y, f"{at}.{name}")
         if "meta" in links and va["meta"] != vb["meta"]:
-            raise Differ("meta", f"{at}: meta flag {va['meta']} vs {vb['meta']}")
+            if soft is None:
+                raise Differ("meta", f"{at}: meta flag {va['meta']} vs {vb['meta']}")
+            soft.append(("meta", f"{at}: meta flag {va['meta']} vs {vb['meta']}"))
         for l in ("pre", "init"):
             if l in links:
                 if len(va[l]) != len(vb[l]):
-                    raise Differ(l, f"{at}: {l}-tasks {len(va[l])} vs {len(vb[l])}")
+                    if soft is None or l != "init":
+                        raise Differ(l, f"{at}: {l}-tasks {len(va[l])} vs {len(vb[l])}")
+                    soft.append((l, f"{at}: {l}-tasks {len(va[l])} vs {len(vb[l])}"))
+                    continue
                 for k, (x, y) in enumerate(zip(va[l], vb[l])):
                     pair(x, y, f"{at}.<{l}{k}>")
         if "task" in links:
@@ -465,11 +472,17 @@ def is_cfg(v):
 def compare_reloaded(orig_val, new_val, data_eq=None):
     """orig_val / new_val: a configuration or a list/dict structure of configurations.
     returns None or (kind, what)"""
+    soft = []
     try:
-        pair_walk(orig_val, new_val, cfg_view, cfg_view, is_cfg, links=("meta", "pre", "init", "task"), data_eq=data_eq)
+        pair_walk(orig_val, new_val, cfg_view, cfg_view, is_cfg, links=("meta", "pre", "init", "task"), data_eq=data_eq, soft=soft)
     except Differ as d:
-        return d.kind, d.what
-    return None
+        soft.append((d.kind, d.what))
+    seen, out = set(), []
+    for k, w in soft:    # one report per kind of difference
+        if k not in seen:
+            seen.add(k)
+            out.append((k, w))
+    return out
 
 
 def classify_reload_diff(kind):
@@ -529,7 +542,11 @@ def run_c12(mod, lib, case, root, canon, datadir):
     orig_id = rootobj.__xpm__.full_identifier.all.hex()
 
     # --- entry point 1: __json__ / fromParameters(as_instance=False)
-    defs = json.loads(rootobj.__json__())
+    try:
+        defs = json.loads(rootobj.__json__())
+    except (Exception, RecursionError) as e:
+        mon("serialize-raises:" + err_kind(e), f"__json__ raised {type(e).__name__}: {str(e)[:200]}", {"entry": "json"})
+        return rec
     rec["lines"].append({"op": "serialize", "roots": [r]})
     rec["impl"].append({"defs": canon_defs(defs, idmap, canon)})
     rec["stats"]["defs"] = len(defs)
@@ -547,16 +564,19 @@ def run_c12(mod, lib, case, root, canon, datadir):
     rec["impl"].append(out)
     try:
         new = ConfigInformation.fromParameters(json.loads(json.dumps(defs)), as_instance=False)
-        diff = compare_reloaded(rootobj, new)
+        diffs = compare_reloaded(rootobj, new)
         new_id = new.__xpm__.full_identifier.all.hex()
         rec["lines"].append({"op": "reid", "root": r})
         rec["impl"].append({"id": new_id, "orig": orig_id})
-        if diff:
-            mon(classify_reload_diff(diff[0]), f"__json__ -> fromParameters(as_instance=False): {diff[1]}", {"entry": "json"})
+        for k, w in diffs:
+            mon(classify_reload_diff(k), f"__json__ -> fromParameters(as_instance=False): {w}", {"entry": "json"})
         if new_id != orig_id:
-            key = classify_reload_diff(diff[0]) if diff and diff[0] in ("meta", "init") else "identifier-differs"
-            mon(key, f"__json__ -> fromParameters(as_instance=False): recomputed identifier {new_id[:12]}… differs from the original {orig_id[:12]}…"
-                + (f" ({diff[1]})" if diff else ""), {"entry": "json"})
+            # a structural difference already reported explains the identifier; otherwise it is a finding of its own
+            if not diffs:
+                mon("identifier-differs", f"__json__ -> fromParameters(as_instance=False): the reloaded graph is structurally identical but its recomputed "
+                    f"identifier {new_id[:12]}… differs from the original {orig_id[:12]}…", {"entry": "json"})
+            else:
+                rec["stats"]["identifier_changed"] = True
     except Exception as e:
         rec["lines"].append({"op": "reid", "root": r})
         rec["impl"].append({"err": err_kind(e)})
@@ -566,8 +586,12 @@ def run_c12(mod, lib, case, root, canon, datadir):
     vs = case.get("value")
     if vs is not None:
         val = cfgbuild.real_val(mod, vs, {i: o for i, o in enumerate(objs)})
-        st = serialization.state_dict(SerializationContext(), val)
-        st = json.loads(json.dumps(st))
+        try:
+            st = serialization.state_dict(SerializationContext(), val)
+            st = json.loads(json.dumps(st))
+        except (Exception, RecursionError) as e:
+            mon("serialize-raises:" + err_kind(e), f"state_dict raised {type(e).__name__}: {str(e)[:200]}", {"entry": "state_dict"})
+            return rec
         rec["lines"].append({"op": "statedict", "v": model_val(val, index, canon)})
         rec["impl"].append({"defs": canon_defs(st["objects"], idmap, canon), "data": canon_j(st["data"], idmap, canon)})
         try:
@@ -582,9 +606,8 @@ def run_c12(mod, lib, case, root, canon, datadir):
         rec["impl"].append(out)
         try:
             new = serialization.from_state_dict(copy.deepcopy(st), Path("/"))
-            diff = compare_reloaded(val, new)
-            if diff:
-                mon(classify_reload_diff(diff[0]), f"state_dict -> from_state_dict: {diff[1]}", {"entry": "state_dict"})
+            for k, w in compare_reloaded(val, new):
+                mon(classify_reload_diff(k), f"state_dict -> from_state_dict: {w}", {"entry": "state_dict"})
         except Exception as e:
             mon("reload-raises:" + err_kind(e), f"state_dict -> from_state_dict raised {type(e).__name__}: {e}", {"entry": "state_dict"})
 
@@ -598,6 +621,9 @@ def run_c12(mod, lib, case, root, canon, datadir):
             except shutil.SameFileError as e:
                 mon("save-data-collision", f"save raised SameFileError: two DataPath parameters of different objects are copied to the same file "
                     f"({canon.path(str(e.args[0]))[-60:] if e.args else ''})", {"entry": "save"})
+                return rec
+            except (Exception, RecursionError) as e:
+                mon("serialize-raises:" + err_kind(e), f"save raised {type(e).__name__}: {str(e)[:200]}", {"entry": "save"})
                 return rec
             has_data = '"path.serialized"' in (sd / "definition.json").read_text()
             rec["stats"]["save_has_data"] = has_data
@@ -620,10 +646,8 @@ def run_c12(mod, lib, case, root, canon, datadir):
                 if not y.is_file() or y.read_bytes() != x.read_bytes():
                     raise Differ("data", f"{at}: the file restored for {canon.path(str(x))} does not hold its content")
             if new is not None:
-                diff = compare_reloaded(val, new, data_eq=data_eq)
-                if diff:
-                    key = "save-data-collision" if diff[0] == "data" else classify_reload_diff(diff[0])
-                    mon(key, f"save -> load: {diff[1]}", {"entry": "save"})
+                for k, w in compare_reloaded(val, new, data_eq=data_eq):
+                    mon("save-data-collision" if k == "data" else classify_reload_diff(k), f"save -> load: {w}", {"entry": "save"})
         finally:
             shutil.rmtree(sd, ignore_errors=True)
 
@@ -637,8 +661,8 @@ def run_c12(mod, lib, case, root, canon, datadir):
         is_task = bool(case.get("root_is_task"))
         try:
             log, loaded, inst, _ = job_side(rootobj, root, is_task)
-        except Exception as e:
-            mon("job-side-raises:" + err_kind(e), f"params.json -> run() raised {type(e).__name__}: {e}", {"entry": "job"})
+        except (Exception, RecursionError) as e:
+            mon("job-side-raises:" + err_kind(e), f"params.json -> run() raised {type(e).__name__}: {str(e)[:200]}", {"entry": "job"})
             return rec
         target = loaded.get(id(rootobj)) if is_task else inst
 
@@ -914,7 +938,11 @@ def run_c13(mod, lib, case, root, canon, datadir):
     for ci, k in enumerate(calls):
         xvlog.LOG.clear()
         before = set(store.constructed)
-        inst = objs[k].instance(ctx, objects=store)
+        try:
+            inst = objs[k].instance(ctx, objects=store)
+        except (Exception, RecursionError) as e:
+            mon("instance-raises:" + err_kind(e), f"instance() raised {type(e).__name__}: {str(e)[:200]}")
+            return rec
         log = list(xvlog.LOG)
         stub_index = {id(s): index[c] for c, s in store.store.items() if c in index}
         rec["lines"].append({"op": "instance", "root": k, "constructed": sorted(constructed)})
@@ -937,7 +965,11 @@ def run_c13(mod, lib, case, root, canon, datadir):
 
     # --- (b) the job process side: params.json -> run(): fromParameters(as_instance=True), pre-tasks, init tasks, body
     is_task = bool(case.get("root_is_task"))
-    log, loaded, inst, defs = job_side(rootobj, root, is_task)
+    try:
+        log, loaded, inst, defs = job_side(rootobj, root, is_task)
+    except (Exception, RecursionError) as e:
+        mon("job-side-raises:" + err_kind(e), f"params.json -> run() raised {type(e).__name__}: {str(e)[:200]}")
+        return rec
     by_id = {id(o): o for o in objs}
     inst_index = {id(o): index[k] for k, o in loaded.items() if k in index}
     rec["lines"].append({"op": "loadinst", "root": r, "body": is_task})
